@@ -361,3 +361,28 @@ def c07_bytes_element(rec, params):
         return False
     bad = [(s, t) for s, t in pairs if not _same07(s, t)]
     return bool(bad) and all(s[0] == 'y' and t[0] == 'arr' for s, t in bad)
+
+
+@classifier
+def c09_extend_items_midway(rec, params):
+    case = rec.get('case') or {}
+    hist = case.get('history') or []
+    if not hist:
+        return False
+    last = hist[-1]
+    act = rec.get('actual') or {}
+    if last.get('name') != 'extend' or last.get('via') != 'items' or act.get('outcome') != 'failed-midway' or act.get('broken'):
+        return False
+    before = case.get('objs_before') or (rec.get('expected') or {}).get('objs')
+    after = act.get('objs')
+    if not before or not after or len(before) != len(after):
+        return False
+    t = last['target'] - 1
+    if before[t]['kind'] != 'frame':
+        return False
+    for i, (b, a) in enumerate(zip(before, after)):
+        if i != t and a != b:
+            return False
+    cur, new = before[t]['labels'], after[t]['labels']
+    k = len(new) - len(cur)
+    return new[:len(cur)] == cur and 0 < k < len(last['labels']) and new[len(cur):] == last['labels'][:k]
